@@ -435,3 +435,75 @@ R("c08-r-pydantic-explicit-guard", ["C08"], [(CONV, '''        loaded = dict(sel
             data = "{}"
         loaded = dict(self.input_pydantic_model.model_validate_json(data))
 ''')])
+
+# ----------------------------------------------------------------------------------------------- C11 / C12 / C07
+ROUT = "repid/router.py"
+RCONS = "repid/connections/redis/consumer.py"
+MCONS = "repid/connections/in_memory/consumer.py"
+QCONS = "repid/connections/rabbitmq/consumer.py"
+M("c11-sync-fix-reverted", ["C11"], [(ROUT, "        self._forget_topic(a.name, a.queue)\n", "")], "R-C11-SYNC")
+M("c11-include-fix-reverted", ["C11"], [(ROUT, "        for name, actor in router.actors.items():\n            self._forget_topic(name, actor.queue)\n", "")], "R-C11-SYNC")
+M("c11-worker-wrong-topics", ["C11"], [("repid/worker.py", "                        self.topics_by_queue[queue_name],\n", "                        self.topics,\n")], "R-C11-WIRING")
+M("c11-inmem-foreign-to-dead", ["C11", "C12"], [(MCONS, "        if self.topics and msg.key.topic not in self.topics:  # topics don't match\n            self._queue.simple.put_nowait(msg)", "        if self.topics and msg.key.topic not in self.topics:  # topics don't match\n            self._queue.dead.append(msg)")], None)
+M("c11-inmem-foreign-dropped", ["C11"], [(MCONS, "        if self.topics and msg.key.topic not in self.topics:  # topics don't match\n            self._queue.simple.put_nowait(msg)\n", "        if self.topics and msg.key.topic not in self.topics:  # topics don't match\n")], "R-C11-FILTER")
+M("c11-rabbit-foreign-nack", ["C11", "C12"], [(QCONS, '''            await asyncio.sleep(0.1)  # poison message fix
+            await self.broker._channel.basic_reject(message.delivery_tag)
+            logger.debug(
+                "Unknown message's topic.''', '''            await asyncio.sleep(0.1)  # poison message fix
+            await self.broker._channel.basic_nack(message.delivery_tag, requeue=False)
+            logger.debug(
+                "Unknown message's topic.''')], None)
+M("c11-rabbit-foreign-no-requeue", ["C11"], [(QCONS, '''            await asyncio.sleep(0.1)  # poison message fix
+            await self.broker._channel.basic_reject(message.delivery_tag)
+            logger.debug(
+                "Unknown message's topic.''', '''            await asyncio.sleep(0.1)  # poison message fix
+            await self.broker._channel.basic_reject(message.delivery_tag, requeue=False)
+            logger.debug(
+                "Unknown message's topic.''')], "R-C11-FILTER")
+M("c11-actor-lookup-by-queue", ["C11"], [(RUN, "actor = actors[key.topic]", "actor = actors.get(key.topic) or next(iter(actors.values()))")], "R-C11-WIRING")
+M("c12-redis-category-fix-reverted", ["C12"], [(RCONS, "if params.is_overdue and self.category == MessageCategory.NORMAL:", "if params.is_overdue:")], "R-C12-RETRIEVABLE")
+M("c12-rabbit-category-dropped", ["C12"], [(QCONS, "if params.is_overdue and self.category == MessageCategory.NORMAL:", "if params.is_overdue:")], "R-C12-RETRIEVABLE")
+M("c12-inmem-overdue-after-topic", ["C12"], [(MCONS, '''        if msg.parameters.is_overdue:  # ttl expired
+            self._queue.dead.append(msg)
+            return None
+        if self.topics and msg.key.topic not in self.topics:  # topics don't match
+            self._queue.simple.put_nowait(msg)
+            return None
+        return msg''', '''        if self.topics and msg.key.topic not in self.topics:  # topics don't match
+            self._queue.simple.put_nowait(msg)
+            return None
+        return msg''')], "R-C12-GATE")
+M("c12-redis-overdue-handed-out", ["C12"], [(RCONS, "                await self.broker.nack(key)\n                continue\n", "                await self.broker.nack(key)\n")], "R-C12-GATE")
+M("c12-rabbit-nack-requeues", ["C12"], [(QCONS, "await self.broker._channel.basic_nack(message.delivery_tag, requeue=False)\n            logger.debug(\"Message is overdue", "await self.broker._channel.basic_nack(message.delivery_tag)\n            logger.debug(\"Message is overdue")], "R-C12-GATE")
+M("c12-retry-restarts-clock", ["C12", "C04"], [(PAR, '''            datetime.now() + next_retry,
+        )
+        return copy''', '''            datetime.now() + next_retry,
+        )
+        object.__setattr__(copy, "timestamp", datetime.now())
+        return copy''')], None)
+M("c07-priority-fix-reverted", ["C07"], [(QCONS, '''                    priority=(
+                        message.header.properties.priority
+                        if message.header.properties.priority is not None
+                        else PrioritiesT.MEDIUM.value
+                    ),''', '''                    priority=message.header.properties.priority or PrioritiesT.MEDIUM.value,''')], "R-C07-FALSY")
+M("c07-decode-ttl-forgotten", ["C07"], [(PAR, '            elif key in ["execution_timeout", "ttl"]:', '            elif key in ["execution_timeout"]:')], "R-C07-CODEC")
+M("c07-decode-int-seconds", ["C07"], [(PAR, '''            elif key == "defer_by":
+                loaded[key] = timedelta(seconds=float(value))''', '''            elif key == "defer_by":
+                loaded[key] = timedelta(seconds=int(value))''')], "R-C07-CODEC")
+M("c07-job-queue-default", ["C07"], [("repid/job.py", "            queue=self.queue.name,\n", "")], "R-C07-MAP")
+M("c07-job-ttl-to-timeout", ["C07"], [("repid/job.py", "            ttl=self.ttl,\n        )", "            ttl=self.timeout,\n        )")], "R-C07-MAP")
+M("c07-redis-requeue-old-params", ["C07", "C01"], [("repid/connections/redis/message_broker.py", 'pipe.hset(mnc(key), mapping={"payload": payload, "parameters": params.encode()})', 'pipe.hset(mnc(key), mapping={"payload": payload})')], "R-C07-WIRE")
+M("c07-valid-name-allows-colon", ["C07"], [("repid/_utils/regex_validators.py", 'VALID_NAME = re.compile(r"[a-zA-Z_][a-zA-Z0-9_-]*")', 'VALID_NAME = re.compile(r"[a-zA-Z_][a-zA-Z0-9_:-]*")')], "R-C07-ALPHABET")
+M("c07-routing-key-match", ["C07"], [("repid/data/_key.py", "if not VALID_NAME.fullmatch(self.topic):", "if not VALID_NAME.match(self.topic):")], "R-C07-ALPHABET")
+M("c07-rabbit-topic-header-renamed", ["C07"], [("repid/connections/rabbitmq/message_broker.py", 'headers={"queue": key.queue, "topic": key.topic},', 'headers={"queue": key.queue, "name": key.topic},')], "R-C07-WIRE")
+R("c07-r-priority-local", ["C07"], [(QCONS, '''        # create a key object and put message in in-memory queue to be picked up soon
+        await self.queue.put(''', '''        # create a key object and put message in in-memory queue to be picked up soon
+        await self.queue.put('''), (QCONS, '''                    priority=(
+                        message.header.properties.priority
+                        if message.header.properties.priority is not None
+                        else PrioritiesT.MEDIUM.value
+                    ),''', '''                    priority=(
+                        PrioritiesT.MEDIUM.value
+                        if message.header.properties.priority is None
+                        else message.header.properties.priority
+                    ),''')])
